@@ -75,9 +75,10 @@ var bad = info{Bad: true}
 var avoid = map[string]bool{
 	"float-div-const-zero":     true, // f / 0.0 with a non constant f is rejected
 	"const-logical-named-bool": false, // T(true) && true had type bool instead of T (repaired: fix commit d5ae682)
-	"const-conversion-keeps-int-repr": true, // float64(3) keeps the integer representation (float64(3) % 2 accepted, float64(3)/2 = 1)
-	"float-const-to-unsigned-not-integral": true, // var x uint8 = 0.5 + 1.0 accepted (computed float constants, unsigned types)
-	"typed-const-keeps-untyped-repr": true, // const c int = 2.0 keeps the float representation (c % 3 rejected, ^c panics)
+	"const-conversion-keeps-int-repr": false, // float64(3) keeps the integer representation (float64(3) % 2 accepted, float64(3)/2 = 1)
+	"float-const-to-unsigned-not-integral": false, // var x uint8 = 0.5 + 1.0 accepted (computed float constants, unsigned types)
+	"typed-const-keeps-untyped-repr": false, // const c int = 2.0 keeps the float representation (c % 3 rejected, ^c panics)
+	"const-shift-count-over-1074": true, // x >> 6400 is accepted (go/types rejects counts above 1074; C02 finding shift-count-limit)
 	"const-shift-float-kind":   false, // 2.0 << 3 stayed an untyped float constant (repaired: fix commit 5702f15)
 }
 
@@ -1109,6 +1110,20 @@ func (g *G) block(n, d int, terminate bool, params []*ent) []Stmt {
 	return out
 }
 
+// reinfo recomputes what the generator knows about an expression from its
+// parts (a mutation changes a node without updating the records above it).
+func reinfo(e Expr) info {
+	switch x := e.(type) {
+	case *Un:
+		return typeUn(x.Op, reinfo(x.E))
+	case *Bin:
+		return typeBin(x.Op, reinfo(x.A), reinfo(x.B))
+	case *Conv:
+		return typeConv(x.T, reinfo(x.E))
+	}
+	return *e.inf()
+}
+
 // avoided reports whether the program contains a construct of an open finding
 // (the mutations can introduce one); such programs are not compared.
 func avoided(p *Prog) bool {
@@ -1128,6 +1143,11 @@ func avoided(p *Prog) bool {
 			}
 			if avoid["const-shift-float-kind"] && (x.Op == "shl" || x.Op == "shr") && !a.Bad && a.Const && !a.Typed && a.Kind == "float" {
 				found = true
+			}
+			if avoid["const-shift-count-over-1074"] && (x.Op == "shl" || x.Op == "shr") {
+				if ci := reinfo(x.B); !ci.Bad && ci.Const && ci.Val != nil && ci.Val.Cmp(bigRat(500)) > 0 {
+					found = true
+				}
 			}
 		}
 	}, func(s Stmt) {
